@@ -17,7 +17,15 @@ Obligations
   id-opacity     ids are never compared with literals, tested for truth or used in arithmetic
   order          loops iterate in file / WBS order, results are appended
 
-Not decided: the csv module's quoting (trusted stdlib, default dialect only), the two-digit-year window, custom attribute
+Round 3 additions: io-modes refutes a csv.writer lineterminator that lacks '\\r' or '\\n' (the writer only quotes fields that
+contain a character of the terminator, CPython < 3.13); converters refutes a hand-built datetime(<fixed century> + yy, ..)
+date parser (cannot reproduce %y over 1969-2068) and judges value forms under a not-understood extra condition on their own;
+reader-keys follows a custom column selection hoisted out of the row loop (`[(k, v) for k, v in header.items() if ..]`);
+fields-covered resolves a copy filter set computed once in the first pass (`if names is None: names = set(raw.__dict__)`)
+and refutes the live-view variant (`raw.__dict__.keys()` / `vars(raw)` kept across rows).
+
+Not decided: the csv module's quoting (trusted stdlib, default dialect only), a hand-rolled date parser with its own year
+pivot (undecided), custom attribute
 names that collide with Task members, tasks whose parent_id is dangling, numeric behaviour of float()/str().
 Known finding (F20): min_start reaches the file as a custom column but is skipped by the `not in dir(t)` filter on rebuild.
 """
@@ -608,6 +616,34 @@ def _map_builder(ctx, hf):
     return fx.x(st.targets[0].slice, keep=keep), fx.x(st.value, keep=keep), fors[0].target, fx.x(fors[0].iter), hf
 
 
+def _peel_filter(it, tn):
+    """iterable of a loop with target names tn, written as a pure selection `[(a, b) for a, b in X if C]` / `[a for a in X if C]` /
+    list(..) / tuple(..) of one  ->  (X, [(atom of C with a, b renamed to tn, True) ..]); anything else -> (it, [])"""
+    from sa.facts import split_conj
+    extra = []
+    for _ in range(4):
+        if isinstance(it, ast.Call) and isinstance(it.func, ast.Name) and it.func.id in ('list', 'tuple', 'iter') and len(it.args) == 1 \
+                and not it.keywords:
+            it = it.args[0]
+            continue
+        if isinstance(it, (ast.ListComp, ast.GeneratorExp)) and len(it.generators) == 1 and not it.generators[0].is_async:
+            g = it.generators[0]
+            gt = g.target
+            gn = [e.id for e in gt.elts] if isinstance(gt, ast.Tuple) and all(isinstance(e, ast.Name) for e in gt.elts) else \
+                ([gt.id] if isinstance(gt, ast.Name) else [])
+            elt = it.elt
+            en = [e.id for e in elt.elts] if isinstance(elt, ast.Tuple) and all(isinstance(e, ast.Name) for e in elt.elts) else \
+                ([elt.id] if isinstance(elt, ast.Name) else [])
+            if gn and gn == en and len(gn) == len(tn) and len(set(gn)) == len(gn):
+                ren = {a: ast.Name(id=b, ctx=ast.Load()) for a, b in zip(gn, tn)}
+                for c in g.ifs:
+                    extra += split_conj(subst(c, ren), True)
+                it = g.iter
+                continue
+        break
+    return it, extra
+
+
 def _kwargs_fill(ctx, o, F, r, star, consumed):
     f, fx, ctor, rowvar = r['func'], r['fx'], r['ctor'], r['rowvar']
     sx = fx.x(star)
@@ -646,6 +682,10 @@ def _kwargs_fill(ctx, o, F, r, star, consumed):
     # target / iter: for k, v in H.items()  |  for k in H
     tn = [e.id for e in target.elts] if isinstance(target, ast.Tuple) and all(isinstance(e, ast.Name) for e in target.elts) else \
         ([target.id] if isinstance(target, ast.Name) else [])
+    # the (loop invariant) selection of the custom columns may be hoisted out of the row loop:
+    #   custom = [(k, v) for k, v in header.items() if k not in DEFAULTS];  for k, v in custom: kwargs[k] = row[v]
+    it, extra = _peel_filter(it, tn)
+    conds = list(conds) + extra
     hm = None
     if isinstance(it, ast.Call) and isinstance(it.func, ast.Attribute) and it.func.attr == 'items' and len(tn) == 2:
         hm, kname = it.func.value, tn[0]
@@ -930,11 +970,20 @@ def _reader_column(ctx, o, f, node, col, vx, S, W, R):
             bad("isdigit() guard", f"`{col}` is parsed only when the cell is all digits: negative numbers"
                                    f"{' and fractions' if kind == 'float' else ''} are dropped")
             continue
-        if unknown:
-            unk(unknown[0][0], f"parser of `{col}` branches on a condition the rule does not understand")
-            continue
+        if kind == 'date':
+            fc = _fixed_century(leaf, conds)
+            if fc is not None:
+                bad(f"{src(fc[0])[:70]}", f"`{col}` is parsed by a hand-built `{src(fc[0])[:70]}` whose year is `{src(fc[1])[:40]}`: a two-digit year plus the "
+                                          f"fixed offset {fc[2]} - the property's dates span 1969-2068 (written as %y), so years 69-99 come back a century "
+                                          f"off (expected strptime(cell, {DATE_FMT!r}), whose %y pivots at 69)")
+                continue
         empty = bool(facts & {'empty', 'falsy', 'none'})
         nonempty = bool(facts & {'nonempty', 'truthy'})
+        if unknown and (empty or not nonempty or isinstance(leaf, ast.Constant) or same(leaf, S)):
+            # a not-understood condition decides between "no value" and a value, or selects a constant
+            unk(unknown[0][0], f"parser of `{col}` branches on a condition the rule does not understand")
+            continue
+        # (a not-understood extra condition on a non-empty cell only selects between value forms: each form is judged on its own)
         if empty:
             has_empty_case = True
             if kind in ('date', 'float', 'optint'):
@@ -1027,6 +1076,30 @@ def _reader_column(ctx, o, f, node, col, vx, S, W, R):
                                                                  f"None is written as '' and raises on read")
     if ok:
         o.site(f, node, f"reader {col} ({kind}): {src(vx)[:70]}")
+
+
+def _fixed_century(leaf, conds):
+    """leaf = datetime(<const century> + <expr>, month, day ..) reached under conditions without a pivot test on the year
+    -> (leaf, year expr, offset) else None.  A single century offset cannot reproduce %y over 1969-2068."""
+    if not (isinstance(leaf, ast.Call) and attr_path(leaf.func) in ('datetime', 'datetime.datetime', 'date', 'datetime.date')):
+        return None
+    year = leaf.args[0] if leaf.args else next((k.value for k in leaf.keywords if k.arg == 'year'), None)
+    if not (isinstance(year, ast.BinOp) and isinstance(year.op, ast.Add)):
+        return None
+    a, b = year.left, year.right
+    if isinstance(b, ast.Constant):
+        a, b = b, a
+    if not (isinstance(a, ast.Constant) and isinstance(a.value, int) and not isinstance(a.value, bool) and a.value >= 100 and a.value % 100 == 0) \
+            or isinstance(b, ast.Constant):
+        return None
+    for t, _pol in conds:
+        for n in ast.walk(t):
+            if isinstance(n, ast.Compare) and any(isinstance(op, (ast.Lt, ast.LtE, ast.Gt, ast.GtE)) for op in n.ops):
+                sides = [n.left] + n.comparators
+                if any(isinstance(s, ast.Constant) and isinstance(s.value, (int, float)) for s in sides) \
+                        and not any(isinstance(s, ast.Call) and isinstance(s.func, ast.Name) and s.func.id == 'len' for s in sides):
+                    return None         # looks like a pivot test on the year: not decided here
+    return leaf, year, a.value
 
 
 def _bool_accepts(leaf, S):
@@ -1351,8 +1424,27 @@ def ob_io_modes(ctx, o, F):
     # ---- other dialect options
     rx, wx = dict(r['extra']), dict(w['extra'])
     lt = wx.pop('lineterminator', None)
-    if lt is not None and const_str(lt) not in ('\n', '\r\n'):
-        o.undecided(wf, w['csv'], lt, "unusual lineterminator")
+    if lt is not None:
+        # csv.writer (QUOTE_MINIMAL) quotes a field only when it contains the delimiter, the quote character or one of the
+        # characters OF THE LINE TERMINATOR (CPython < 3.13; 3.13 always quotes '\r' and '\n').  With the default '\r\n' both
+        # line break characters force quoting; a terminator that lacks one of them lets that character through unquoted and
+        # csv.reader then ends the record there (or raises "new-line character seen in unquoted field").
+        ltx = fx_of(ctx, wf).x(lt) if fx_of(ctx, wf).flow.node_of_expr(lt) is not None else lt
+        ltv = const_str(ltx)
+        if ltv is None:
+            o.undecided(wf, w['csv'], lt, "csv.writer lineterminator is not a constant")
+        elif ltv == '\r\n':
+            o.site(wf, w['csv'], "lineterminator '\\r\\n' (the default): both line break characters force quoting")
+        elif '\r' not in ltv or '\n' not in ltv:
+            lack = [repr(c) for c in ('\r', '\n') if c not in ltv]
+            o.refute(wf, w['csv'], f"csv.writer(lineterminator={ltv!r})",
+                     f"csv.writer is built with lineterminator={ltv!r}: the writer quotes only fields that contain the delimiter, the quote "
+                     f"character or a character of the line terminator, so a text field with a bare {' / '.join(lack)} is written unquoted "
+                     f"and the file cannot be read back (expected the default '\\r\\n' terminator, under which every line break is quoted)")
+        else:
+            o.undecided(wf, w['csv'], lt, f"unusual lineterminator {ltv!r}")
+    if 'lineterminator' in rx:
+        rx.pop('lineterminator')        # ignored by csv.reader
     if set(rx) != set(wx) or any(src(rx[k]) != src(wx[k]) for k in rx):
         one = sorted(set(rx) ^ set(wx)) or sorted(k for k in rx if src(rx[k]) != src(wx[k]))
         fn, d = (rf, r) if any(k in rx for k in one) else (wf, w)
@@ -1452,6 +1544,13 @@ def ob_fields(ctx, o, F):
     dcopy = dcopies[0] if dcopies else None
     F.acopy, F.dcopy = acopy, dcopy
     F.names = dict(tvar=tvar, rvar=rvar, rawname=rawname, taskname=taskname)
+    for fn, gc in ((t2r, acopy), (r2w, dcopy)):
+        for name, val, stmt in (gc.live if gc is not None else ()):
+            o.refute(fn, stmt, f"{name} = {src(val)[:60]} computed once",
+                     f"the generic attribute copy filters with `{name}`, computed once for the first object as `{src(val)[:60]}`: that is a live view "
+                     f"of the first `{src(gc.dst)}`'s __dict__, which grows by every attribute the copy stores on that object - a custom attribute "
+                     f"the first task carries is then rejected for every later task and lost (expected a snapshot such as set({src(val)[:40]}) "
+                     f"or the per-object test `k not in {src(gc.dst)}.__dict__`)")
     if astar is not None or dstar is not None:
         o.undecided(t2r if astar is not None else r2w, None, '** in constructor call', "constructor called with ** arguments")
         return
